@@ -119,5 +119,26 @@ func acceptsGzip(r *http.Request) bool {
 			return false
 		}
 	}
+	if refusesGzip(r.Header.Get(headerAcceptEncoding)) {
+		return false
+	}
 	return strings.Contains(r.Header.Get(headerAcceptEncoding), encodingGzip)
+}
+
+// refusesGzip reports whether the Accept-Encoding header lists gzip with a
+// quality value of zero ("gzip;q=0"), i.e. the client does not accept it.
+func refusesGzip(acceptEncoding string) bool {
+	for _, enc := range strings.Split(acceptEncoding, ",") {
+		params := strings.Split(enc, ";")
+		if strings.TrimSpace(params[0]) != encodingGzip {
+			continue
+		}
+		for _, p := range params[1:] {
+			p = strings.TrimSpace(p)
+			if strings.HasPrefix(p, "q=") && strings.Trim(p[len("q="):], "0.") == "" {
+				return true
+			}
+		}
+	}
+	return false
 }
